@@ -105,6 +105,21 @@ static int op_xform(toks_t *t)
   }
   c06_dissect(dst, (unsigned long)dsize, buf, sizeof(buf));
   printf("R %s\n", buf);
+  /* the property's table clause, evaluated on the real output: each component's quantisation table
+     is the source's, transposed iff the operation transposes */
+  {
+    int ci, k, nco = 0, swaps = (op == TJXOP_TRANSPOSE || op == TJXOP_TRANSVERSE || op == TJXOP_ROT90 || op == TJXOP_ROT270);
+    const char *p = buf; char exp[64];
+    for (ci = 0; ci < 3; ci++) {
+      unsigned long long hq = 14695981039346656037ULL;
+      p = strstr(p, " q"); if (!p) break;
+      for (k = 0; k < 64; k++) { int sk = swaps ? (k % 8) * 8 + k / 8 : k; unsigned v = (unsigned)c06_quant(ci ? 1 : 0, sk); hq ^= (v & 255); hq *= 1099511628211ULL; hq ^= (v >> 8); hq *= 1099511628211ULL; }
+      snprintf(exp, sizeof(exp), " q%llu ", hq);
+      if (strncmp(p, exp, strlen(exp))) { printf("O fail xform op %d: quantisation table of component %d is not the source table%s\n", op, ci, swaps ? " transposed" : ""); goto done; }
+      p += 2; nco++;
+    }
+    (void)nco;
+  }
   /* group law on the real library: transforming back with the inverse operation restores the source
      coefficients and tables, whenever the image is made of whole iMCUs and nothing was cut */
   {
